@@ -4043,6 +4043,10 @@ class PyCdlib:
         if self._initialized:
             raise pycdlibexception.PyCdlibInvalidInput('This object already has an ISO; either close it or create a new object')
 
+        # An earlier new() that was refused part of the way may have left
+        # things behind; start from a clean slate.
+        self._initialize()
+
         if interchange_level < 1 or interchange_level > 4:
             raise pycdlibexception.PyCdlibInvalidInput('Invalid interchange level (must be between 1 and 4)')
 
